@@ -69,14 +69,26 @@ def api_history(ctx, prop="C05"):
         return out
 
     use_views = t.flag(0.3, "lookups_with_strided_views")
+    # Jacobians stored as sparse blocks whose last column holds no entry (the shape is not implied by the entries)
+    sparse_jac = t.flag(0.4, "sparse_jacobian")
+    if sparse_jac:
+        from scipy.sparse import csr_array
+
+    # the same input given with its names in another order is the same input
+    reorder = t.flag(0.3, "lookups_with_names_reordered")
 
     def check_all(after):
         for k in keys:
-            e = cache[strided(inp(k)) if use_views else inp(k)]
+            probe_input = strided(inp(k)) if use_views else inp(k)
+            if reorder:
+                probe_input = dict(reversed(list(probe_input.items())))
+            e = cache[probe_input]
             m = model.get(k, {"out": None, "jac": None})
             got_out = None if not e.outputs else float(array(e.outputs["y"])[0])
             try:
                 got_jac = None if not e.jacobian else float(dense(e.jacobian["y"]["a"])[0, 0])
+                if e.jacobian and dense(e.jacobian["y"]["a"]).shape != (1, 2):
+                    got_jac = f"block of shape {dense(e.jacobian['y']['a']).shape} instead of (1, 2)"
             except (KeyError, TypeError, IndexError):
                 got_jac = "malformed"
             if got_out != m["out"] or got_jac != m["jac"]:
@@ -97,7 +109,7 @@ def api_history(ctx, prop="C05"):
             cache.cache_outputs(inp(k), {"y": array([val])})
         else:
             ops.append(("cache_jacobian", k, val))
-            cache.cache_jacobian(inp(k), {"y": {"a": array([[val, 0.0]])}})
+            cache.cache_jacobian(inp(k), {"y": {"a": csr_array(array([[val, 0.0]])) if sparse_jac else array([[val, 0.0]])}})
         if policy == 1 and k not in model:
             model.clear()
         m = model.setdefault(k, {"out": None, "jac": None})
